@@ -1,13 +1,226 @@
-import Octo.Spec.SqlSem
+import Octo.Lemmas.SqlTree3
 /-!
 # C01 — Single-source SELECT results match relational semantics
-(theorems are added below as they are proved)
+
+`Octo.Sql.denote mode q t` is the model of what the engine does with a (possibly nested) single-source
+SELECT on a batch table `t` in output mode `mode` (tied to the real binary by the C01 correspondence:
+exact printed row sequence in all five output modes). `Octo.Sql.QueryResult q t out` is the relational
+specification ("filter, project, one representative per class of equal rows, a key-sorted
+rearrangement, its first n rows").  The theorems say: whatever the engine returns is an allowed result,
+for every query of the fragment and every table — any number of rows, any nesting depth.
 -/
 namespace Octo.C01
 open Octo Octo.Sql
 
-/-- LIMIT through the Limit node returns exactly `min n N` rows, the first ones -/
-theorem limitOp_length (n : Nat) (rows : List Row) : (limitOp n rows).length = min n rows.length := by
-  simp [limitOp]
+/-- the ORDER BY keys evaluate on every row they are applied to (true of well-typed queries: keys are
+    columns and total arithmetic); only needed to exhibit the sorted rearrangement when `LIMIT 0` makes the
+    engine skip the sort altogether -/
+def KeysOk (order : List (SExpr × Bool)) (core : List Row) : Prop :=
+  ∀ r ∈ core, (evalAll r (keyExprs order)).isSome
+
+theorem sameBag_refl (a : List Row) : SameBag a a := fun _ => rfl
+
+theorem sortedBy_no_keys (l : List Row) : SortedBy [] l := by
+  induction l with
+  | nil => trivial
+  | cons r rs ih =>
+    refine ⟨?_, ih⟩
+    intro x _ ka kb h1 h2
+    simp [keyExprs, evalAll] at h1 h2
+    subst h1; subst h2
+    simp [mults, keyCmp]
+
+/-- WHERE / SELECT list / DISTINCT as executed = as specified -/
+theorem blockCore_spec (b : Block) (inp core : List Row) (h : blockCore b inp = some core) :
+    (if b.distinct then IsDistinctOf core (specMap b.proj (specFilter b.whr inp))
+     else core = specMap b.proj (specFilter b.whr inp)) := by
+  simp only [blockCore] at h
+  cases h1 : whereStep b.whr inp with
+  | none => simp [h1] at h
+  | some r1 =>
+    have e1 : r1 = specFilter b.whr inp := by
+      cases hw : b.whr with
+      | none => simp [whereStep, hw] at h1; simp [specFilter, h1]
+      | some p => simp only [whereStep, hw] at h1; exact filterOp_spec p inp r1 h1
+    simp only [h1] at h
+    cases h2 : projStep b.proj r1 with
+    | none => simp [h2] at h
+    | some r2 =>
+      have e2 : r2 = specMap b.proj r1 := by
+        cases hp : b.proj with
+        | none => simp [projStep, hp] at h2; simp [specMap, h2]
+        | some es => simp only [projStep, hp] at h2; exact mapOp_spec es r1 r2 h2
+      simp only [h2, Option.some.injEq] at h
+      subst e1; subst e2
+      split
+      · rename_i hd; simp only [hd, if_true] at h; subst h; exact distinctOp_isDistinct _
+      · rename_i hd; simp only [hd] at h; simpa using h.symm
+
+/-- ORDER BY / LIMIT of nested blocks and of the eager sinks (csv, json, stream_native) -/
+theorem orderLimitEager_spec (b : Block) (core out : List Row) (hk : KeysOk b.order core)
+    (h : orderLimitEager b core = some out) :
+    ∃ full, SameBag full core ∧ SortedBy b.order full ∧
+      out = applyLimit b.limit full := by
+  simp only [orderLimitEager] at h
+  split at h
+  · -- OrderSensitiveTransform
+    rename_i hne
+    simp only [ostOp, mults_eq, keyExprs_eq] at h
+    split at h
+    · -- LIMIT 0: nothing is read; a sorted rearrangement exists because the keys evaluate
+      rename_i h0
+      obtain ⟨t, ht⟩ := buildTree_full_exists b.order core [] hk
+      obtain ⟨full, hb, hs, _, _⟩ := emit_buildTree_spec b.order none core t ht
+      refine ⟨full, hb, hs, ?_⟩
+      simp only [Option.some.injEq] at h
+      simp [h0, ← h, applyLimit]
+    · cases hbt : buildTree (mults b.order) b.limit (keyExprs b.order) [] core with
+      | none => simp [hbt] at h
+      | some t =>
+        simp only [hbt, Option.map_some, Option.some.injEq] at h
+        obtain ⟨full, hb, hs, _, he⟩ := emit_buildTree_spec b.order b.limit core t hbt
+        exact ⟨full, hb, hs, by rw [← h, he]⟩
+  · -- no ORDER BY: the Limit node, or nothing
+    rename_i he
+    have he' : b.order = [] := by simpa using he
+    refine ⟨core, sameBag_refl _, by rw [he']; exact sortedBy_no_keys _, ?_⟩
+    cases hl : b.limit with
+    | none => simp [hl] at h; simp [h, applyLimit]
+    | some n =>
+      simp only [hl] at h
+      split at h
+      · rename_i hn; simp only [Option.some.injEq] at h; simp [← h, hn, applyLimit]
+      · simp only [Option.some.injEq, limitOp] at h; simp [← h, applyLimit]
+
+theorem block_eager_sound (b : Block) (inp core out : List Row)
+    (hc : blockCore b inp = some core) (hk : KeysOk b.order core)
+    (ho : orderLimitEager b core = some out) : BlockResult b inp out := by
+  obtain ⟨full, h1, h2, h3⟩ := orderLimitEager_spec b core out hk ho
+  exact ⟨core, full, blockCore_spec b inp core hc, h1, h2, h3⟩
+
+/-- the table sinks (batch_table, live_table): optional Limit node, then the sorting and limiting printer -/
+theorem block_table_sound (b : Block) (inp core out : List Row)
+    (hc : blockCore b inp = some core)
+    (ho : tableSink b core = some out) : BlockResult b inp out := by
+  refine ⟨core, ?_⟩
+  have hcore := blockCore_spec b inp core hc
+  simp only [tableSink, printerOp, mults_eq, keyExprs_eq] at ho
+  cases hl : b.limit with
+  | none =>
+    simp only [hl] at ho
+    cases hbt : buildTree (mults b.order) none (keyExprs b.order) [] core with
+    | none => simp [hbt] at ho
+    | some t =>
+      simp only [hbt, Option.map_some, Option.some.injEq] at ho
+      obtain ⟨full, hb, hs, _, he⟩ := emit_buildTree_spec b.order none core t hbt
+      exact ⟨full, hcore, hb, hs, by rw [← ho, he]⟩
+  | some n =>
+    simp only [hl] at ho
+    by_cases hord : b.order = []
+    · -- Limit node first, then the printer sorts those rows by value
+      simp only [hord, if_true] at ho
+      have hc' : (if n = 0 then [] else limitOp n core) = core.take n := by
+        split
+        · rename_i h0; simp [h0]
+        · rfl
+      rw [hc'] at ho
+      cases hbt : buildTree (mults []) (some n) (keyExprs []) [] (core.take n) with
+      | none => simp [hbt] at ho
+      | some t =>
+        simp only [hbt, Option.map_some, Option.some.injEq] at ho
+        obtain ⟨full', hb, _, hlen, he⟩ := emit_buildTree_spec [] (some n) (core.take n) t hbt
+        refine ⟨full' ++ core.drop n, hcore, ?_, by rw [hord]; exact sortedBy_no_keys _, ?_⟩
+        · intro r
+          rw [countRow_append, hb r, ← countRow_append, List.take_append_drop]
+        · have hl' : full'.length ≤ n := by rw [hlen]; exact List.length_take_le n core
+          rw [← ho, he]
+          simp only [applyLimit]
+          rw [List.take_append]
+          by_cases hlt : core.length ≤ n
+          · simp [List.drop_of_length_le hlt]
+          · have : full'.length = n := by rw [hlen, List.length_take]; omega
+            simp [this]
+    · simp only [hord, if_false] at ho
+      cases hbt : buildTree (mults b.order) (some n) (keyExprs b.order) [] core with
+      | none => simp [hbt] at ho
+      | some t =>
+        simp only [hbt, Option.map_some, Option.some.injEq] at ho
+        obtain ⟨full, hb, hs, _, he⟩ := emit_buildTree_spec b.order (some n) core t hbt
+        exact ⟨full, hcore, hb, hs, by rw [← ho, he]⟩
+
+/-- the ORDER BY keys of every block evaluate on the rows they meet -/
+def KeysTotal : Query → List Row → Prop
+  | .table, _ => True
+  | .sel src b, t => KeysTotal src t ∧
+      ∀ mid core, denoteNested src t = some mid → blockCore b mid = some core → KeysOk b.order core
+
+/-- nested queries (subqueries in FROM) -/
+theorem denoteNested_sound (q : Query) (t out : List Row) (hk : KeysTotal q t)
+    (h : denoteNested q t = some out) : QueryResult q t out := by
+  induction q generalizing out with
+  | table => simp [denoteNested] at h; simp [QueryResult, h]
+  | sel src b ih =>
+    simp only [denoteNested] at h
+    cases h1 : denoteNested src t with
+    | none => simp [h1] at h
+    | some mid =>
+      simp only [h1] at h
+      cases h2 : blockCore b mid with
+      | none => simp [h2] at h
+      | some core =>
+        simp only [h2] at h
+        exact ⟨mid, ih mid hk.1 h1, block_eager_sound b mid core out h2 (hk.2 mid core h1 h2) h⟩
+
+/-- **C01**: in every output mode, the rows a SELECT query prints are an allowed result of the query:
+    they match as a multiset, and in order when ORDER BY is given (`QueryResult`). -/
+theorem C01_denote_sound (mode : Mode) (src : Query) (b : Block) (t out : List Row)
+    (hk : KeysTotal (.sel src b) t)
+    (h : denote mode (.sel src b) t = some out) : QueryResult (.sel src b) t out := by
+  simp only [denote] at h
+  cases h1 : denoteNested src t with
+  | none => simp [h1] at h
+  | some mid =>
+    simp only [h1] at h
+    cases h2 : blockCore b mid with
+    | none => simp [h2] at h
+    | some core =>
+      simp only [h2] at h
+      refine ⟨mid, denoteNested_sound src t mid hk.1 h1, ?_⟩
+      cases mode with
+      | eager => exact block_eager_sound b mid core out h2 (hk.2 mid core h1 h2) h
+      | table => exact block_table_sound b mid core out h2 h
+
+/-! ### what `QueryResult` buys: corollaries in plain words -/
+
+/-- without DISTINCT / LIMIT the output is, as a multiset, exactly the filtered and projected input -/
+theorem result_bag (b : Block) (inp out : List Row) (hd : b.distinct = false) (hl : b.limit = none)
+    (h : BlockResult b inp out) : SameBag out (specMap b.proj (specFilter b.whr inp)) := by
+  obtain ⟨core, full, h1, h2, _, h4⟩ := h
+  simp only [hd, hl, applyLimit] at h1 h4
+  simp at h1
+  subst h1; subst h4
+  exact h2
+
+/-- with ORDER BY the output is sorted by the keys -/
+theorem result_sorted (b : Block) (inp out : List Row) (hl : b.limit = none)
+    (h : BlockResult b inp out) : SortedBy b.order out := by
+  obtain ⟨core, full, _, _, h3, h4⟩ := h
+  simp only [hl, applyLimit] at h4
+  subst h4; exact h3
+
+/-! ### non-vacuity: concrete queries, evaluated in the kernel -/
+
+def tbl : List Row := [[.int 2, .str [120]], [.null, .str [121]], [.int 2, .str [120]], [.int 1, .str [122]]]
+/-- `SELECT DISTINCT c0 + 1, c1 FROM t WHERE c0 IS NOT NULL ORDER BY 1 DESC LIMIT 1` -/
+def q1 : Query := .sel .table
+  { whr := some (.isNotNull (.col 0)), proj := some [.bin .add (.col 0) (.lit (.int 1)), .col 1],
+    distinct := true, order := [(.col 0, true)], limit := some 1 }
+
+def isSingle (r : Row) : Option (List Row) → Bool
+  | some [x] => rowEq x r
+  | _ => false
+
+example : isSingle [.int 3, .str [120]] (denote .eager q1 tbl) = true := by decide
+example : isSingle [.int 3, .str [120]] (denote .table q1 tbl) = true := by decide
 
 end Octo.C01
